@@ -253,3 +253,16 @@ Theorem C01_reader_is_source : forall fuel inp t, (length inp + 2 < fuel)%nat ->
                map (ImpProofsJ.fa_item t) (Bio.Model.Fasta.decode inp t)).
 Proof. exact ImpProofsJ.imp_fasta_Reader. Qed.
 Print Assumptions C01_reader_is_source.
+
+(* ---- the round trip, about the translated source --------------------------------------------------------
+   MarshalText as translated gives the model's text of every record of the domain, and the translated
+   Reader, given the concatenated texts, yields exactly those records. *)
+From Bio.Proofs Require ImpProofsW.
+Theorem C01_roundtrip_is_source : forall rs fuel, Forall fa_ok rs ->
+  (length (concat (map write rs)) + 2 < fuel)%nat ->
+  Forall (fun r => forall f, (length (Bio.Model.Fasta.seq r) < f)%nat ->
+            ImpGen.imp_fasta_Fasta_MarshalText f (ImpProofsG.fa_of r) = GoSem.Ret (write r, false)) rs
+  /\ ImpGen.imp_fastard_Reader fuel (GoSem.Stream (concat (map write rs)) 1%Z None)
+     = GoSem.Ret (GoSem.Stream [] 1%Z None, map (ImpProofsJ.fa_item TEOF) (map Rec rs)).
+Proof. exact ImpProofsW.fasta_roundtrip_src. Qed.
+Print Assumptions C01_roundtrip_is_source.
